@@ -172,6 +172,11 @@ def gen_versions(rng):
     for ver in out[1:]:
         if ver != dedup[-1] and ver not in dedup:
             dedup.append(ver)
+    if rng.random() < 0.12:
+        # the repository republished one version unchanged: two consecutive history entries with the same content and an empty
+        # patch between them
+        k = rng.randrange(len(dedup))
+        dedup.insert(k, list(dedup[k]))
     return dedup
 
 
@@ -211,7 +216,8 @@ def run(ctx):
             lname, lcontent = rng.choice(locals_)
             for im in ("missing", "empty", "garbage", "no-current", "wrong-current", "extra-fields"):
                 scenarios.append((lname, lcontent, im, None))
-            if len(versions) > 1:
+            if len(versions) > 1 and all(versions[k] != versions[k + 1] for k in range(len(versions) - 1)):
+                # (with a republished version it depends on the entry the library starts from whether a damaged patch is used at all)
                 scenarios.append(("v0", versions[0], "ok", ("garble", rng.randrange(len(versions) - 1))))
                 scenarios.append(("v0", versions[0], "ok", ("truncate", rng.randrange(len(versions) - 1))))
             for fault in ("open", "rename") + tuple(("write", i) for i in range(len(cur) + 1)):
